@@ -198,6 +198,10 @@ def direct_expectations(prog, houses):
             # of the command on (1-based) file line n carries count n + 1 in a script without blank lines
             if a.count == line_index + 2 and type(a.actor).__name__ in ("PokeDirect", "PokeIndirect"):
                 act = a
+        if act is None and operands and operands[0][0] == "need0":
+            for a in frame.preacts:
+                if a.count == line_index + 2 and isinstance(a.parms, dict) and a.parms.get("needs"):
+                    act = a
         if act is None:
             continue
         mainframe = framer.main if is_clone else None
@@ -257,7 +261,8 @@ def direct_expectations(prog, houses):
             elif form in ("frameother", "frameotherinline", "fullinline"):
                 exp = ".framer.%s.frame.%s.%s" % (gname, names[ref["gf"]], w)
             elif form in ("actor", "actorinline"):
-                exp = ".framer.%s.frame.%s.actor.%s.%s" % (fname, nname, _camel_path(act.actor.name), w)
+                owner = act.parms["needs"][0].actor if key == "need0" else act.actor      # `of actor` = the act that holds the reference
+                exp = ".framer.%s.frame.%s.actor.%s.%s" % (fname, nname, _camel_path(owner.name), w)
             elif form == "actornamed":
                 exp = ".framer.%s.frame.%s.actor.%s.%s" % (names[prog["framers"][ref["af"]]], names[ref["an"]],
                                                             names[ref["a"]], w)
@@ -271,7 +276,13 @@ def direct_expectations(prog, houses):
                     exp = ".".join(parts) if parts[0] == "" else "." + ".".join(parts)
             if exp is None:
                 continue
-            got = act.parms.get(key)
+            if key == "need0":
+                nd = act.parms["needs"][0]
+                got = (getattr(nd, "parms", None) or {}).get("state")
+                if got is None:
+                    continue
+            else:
+                got = act.parms.get(key)
             gotname = getattr(got, "name", got)
             gotname = gotname if str(gotname).startswith(".") else "." + str(gotname)
             out.append((line_index + 1, key, exp, gotname, form))
